@@ -237,29 +237,45 @@ def r2_shortcut_vs_dispatch(ctx) -> None:
     r.rule("C01.R2", "the in-list shortcut agrees with per-value dispatch: no class admitted by decide_convert_condition_as_in_expression has a subclass that the dispatcher sends to a different handler, unless that subclass is excluded")
     f = prog.func(B + ".decide_convert_condition_as_in_expression")
     fmap, _ = dispatch_map(ctx, B + ".convert_condition_field_eq_val")
+    # the decision function interpreted (sa.tabulate, Proxy) once per class of the value hierarchy: an OR of two values of
+    # that class on one field, with the feature and wildcards enabled — is the class admitted to the in-list form?
+    from ..tabulate import Proxy as _P2, call_method as _cm2, Raised as _R2
+    st2 = _type_standins(ctx)
+    env2 = dict(st2)
+    env2["cast"] = lambda t_, v_: v_
+    concrete = [c.rsplit(".", 1)[-1] for c in prog.subclasses(TYPES + ".SigmaType", strict=True) if c.startswith(TYPES + ".")]
     admitted: list[str] = []
     excluded: list[str] = []
-    for c in (x for x in walk_no_nested(f.node) if isinstance(x, ast.Call) and call_name(x) == "isinstance" and unparse(x.args[0]) == "arg.value"):
-        names = [unparse(e) for e in (c.args[1].elts if isinstance(c.args[1], ast.Tuple) else [c.args[1]])]
-        p = prog.parent(c)
-        neg = isinstance(p, ast.UnaryOp) and isinstance(p.op, ast.Not)
-        # only the type test of the admission check (inside all([...])), not the wildcard filter
-        in_all = any(isinstance(a, ast.Call) and call_name(a) == "all" for a in prog.ancestors(c))
-        if in_all:
-            (excluded if neg else admitted).extend(names)
+    FE2, OR2 = st2["ConditionFieldEqualsValueExpression"], st2["ConditionOR"]
+    for t in sorted(concrete):
+        if t not in st2 or t.endswith("Mixin"):
+            continue
+        def leaf():
+            x = FE2()
+            x.__dict__.update(field="f", value=st2[t]())
+            x.value.__dict__["contains_special"] = lambda: False
+            return x
+        node = OR2()
+        node.__dict__["args"] = [leaf(), leaf()]
+        me2 = _P2(prog, B, env2, {"convert_or_as_in": True, "convert_and_as_in": True, "in_expressions_allow_wildcards": True}, interp_kwargs={"max_steps": 4000})
+        try:
+            ans = _cm2(prog, B, f.name, me2, env2, node, object(), interp_kwargs={"max_steps": 4000})
+        except _R2 as ex:
+            raise AnalysisError(f"{f.qual}: raises {ex} for values of class {t}")
+        (admitted if ans is True else excluded).append(t)
     if not admitted:
         raise AnalysisError(f"{f.qual}: admitted value classes not found")
-    for a in admitted:
-        aq = f"{TYPES}.{a}"
-        for t, h in sorted(fmap.items()):
-            tq = f"{TYPES}.{t}"
-            if t != a and tq in prog.classes and prog.is_subclass(tq, aq) and h != fmap.get(a):
-                if t in excluded or any(prog.is_subclass(tq, f"{TYPES}.{e}") for e in excluded):
-                    r.ok("C01.R2", f.qual, f"{t} (own handler {h.replace('self.', '')}) is excluded from the in-list shortcut", f.loc)
-                else:
-                    r.violation("C01.R2", f.qual, f"isinstance(arg.value, ({', '.join(admitted)})) admits {t}",
-                                f"{t} is dispatched to {h} when converted on its own, but in a value list it is rendered by the in-expression like a plain {a}: the match kind (case sensitivity / timestamp part) is lost", f.loc)
-    r.ok("C01.R2", f.qual, f"admitted {admitted}, excluded {excluded}", f.loc)
+    plain_handlers = {fmap.get("SigmaString"), fmap.get("SigmaNumber")}
+    for t in admitted:
+        h = fmap.get(t, "")
+        if h not in plain_handlers:
+            base = next((b_ for b_ in ("SigmaString", "SigmaNumber") if prog.is_subclass(f"{TYPES}.{t}", f"{TYPES}.{b_}")), "SigmaString")
+            r.violation("C01.R2", f.qual, f"isinstance(arg.value, ({', '.join(x for x in admitted if x in ('SigmaString', 'SigmaNumber'))})) admits {t}",
+                        f"{t} is dispatched to {h} when converted on its own, but in a value list it is rendered by the in-expression like a plain {base}: the match kind (case sensitivity / timestamp part) is lost", f.loc)
+    for t in excluded:
+        if any(prog.is_subclass(f"{TYPES}.{t}", f"{TYPES}.{b_}") for b_ in admitted if b_ != t):
+            r.ok("C01.R2", f.qual, f"{t} (own handler {fmap.get(t, '').replace('self.', '')}) is excluded from the in-list shortcut", f.loc)
+    r.ok("C01.R2", f.qual, f"admitted {admitted} (interpreted per class), all converted by the plain string/number handlers when on their own", f.loc)
     r.floor("C01.R2", 2)
 
 
